@@ -16,6 +16,7 @@ use crate::tape::Stream;
 use crate::tape::Tape;
 use crate::world::FaultPlan;
 use crate::world::GenCfg;
+use crate::world::gen_world as gen_world_plain;
 use crate::world::gen_world;
 
 pub fn spec() -> CheckSpec {
@@ -32,11 +33,173 @@ pub fn spec() -> CheckSpec {
     quick_cases: 2500,
     thorough_cases: 60000,
     run_case,
-    systematic: |_| 0,
+    // systematic cases: tiny worlds whose whole scheduler choice tree (which
+    // task is polled, which outstanding load completes) is enumerated
+    systematic: |t| match t {
+      Tier::Quick => 24,
+      Tier::Thorough => 1500,
+    },
   }
 }
 
-pub fn run_case(tape: &mut Tape, tier: Tier, _p: &CaseParams) -> CaseOutcome {
+/// Depth-first enumeration of every schedule of a tiny world under the
+/// `uniform` policy (every enabled poll / completion is a branch).
+fn enumerate_case(tape: &mut Tape, tier: Tier) -> CaseOutcome {
+  let mut out = CaseOutcome::default();
+  let mut cfg = GenCfg::basic();
+  cfg.max_modules = 4;
+  cfg.max_items = 2;
+  cfg.max_roots = 2;
+  let world = if tape.draw(Stream::World, 4) == 3 {
+    let mut rc = crate::checks::worlds::RegGenCfg::full();
+    rc.max_packages = 1;
+    rc.max_versions = 2;
+    crate::checks::worlds::gen_registry_world(tape, &rc)
+  } else {
+    gen_world_plain(tape, &cfg)
+  };
+  let mut sem = SemOpts::draw(tape);
+  sem.with_locker = world.lockfile.present;
+  let plan = FaultPlan::default();
+  let base_sched = SchedOpts::default();
+  let (base, _) = match build_fresh(
+    &world,
+    &plan,
+    &sem,
+    &base_sched,
+    Tape::replay(Default::default()),
+    0,
+    false,
+    |_, _, _| (),
+  ) {
+    Ok(x) => x,
+    Err(p) => {
+      out.harness_error = Some(format!("baseline thread panicked: {}", p));
+      return out;
+    }
+  };
+  add_summary(&mut out, &base.summary, &base_sched);
+  if base.end != RunEnd::Done {
+    out.count("baseline_abnormal", 1);
+    return out;
+  }
+  let sched = SchedOpts {
+    policy: 3, // uniform: every enabled action is a branch
+    inline_exec: tape.draw(Stream::Options, 2) == 1,
+    spurious: false,
+    analyzer_suspend: false,
+    fs_order_seed: 0,
+  };
+  let budget: u64 = match tier {
+    Tier::Quick => 400,
+    Tier::Thorough => 6000,
+  };
+  let wh = world_hash(&world);
+  let mut prefix: Vec<u32> = vec![];
+  let mut leaves = 0u64;
+  let mut complete = false;
+  loop {
+    if leaves >= budget {
+      break;
+    }
+    let t = Tape::replay(crate::tape::Tapes {
+      schedule: prefix.clone(),
+      ..Default::default()
+    });
+    let (var, t) = match build_fresh(
+      &world, &plan, &sem, &sched, t, 0, false, |_, _, _| (),
+    ) {
+      Ok(x) => x,
+      Err(p) => {
+        out.harness_error = Some(format!("variant thread panicked: {}", p));
+        return out;
+      }
+    };
+    leaves += 1;
+    out
+      .distinct
+      .entry("world_x_order")
+      .or_default()
+      .push(crate::rng::mix(wh, var.summary.order_sig));
+    let replay_tapes = || {
+      let mut tp = tape.rec.clone();
+      tp.schedule = t.rec.schedule.clone();
+      tp
+    };
+    if var.end != RunEnd::Done {
+      out.violation(
+        "C04",
+        "schedule-enumeration",
+        format!("abnormal-end:{}", end_class(&var.end)),
+        format!("schedule {:?} ended {:?}", t.rec.schedule, var.end),
+        json!({"schedule": t.rec.schedule, "sem": sem, "world": world.to_json()}),
+      );
+      let _ = replay_tapes;
+      return out;
+    }
+    if let Some((path, a, b)) = first_diff(&base.obs, &var.obs) {
+      out.violation(
+        "C04",
+        "schedule-enumeration",
+        format!("diff:{}|cause:schedule", classify_path(&path)),
+        format!(
+          "observation differs from baseline at {} under enumerated schedule {:?}: baseline={} variant={}",
+          path,
+          t.rec.schedule,
+          truncate(&a.to_string(), 200),
+          truncate(&b.to_string(), 200)
+        ),
+        json!({"path": path, "schedule": t.rec.schedule, "sem": sem, "world": world.to_json()}),
+      );
+      return out;
+    }
+    // next schedule in depth-first order
+    let vals = t.rec.schedule.clone();
+    let ars = t.schedule_arity.clone();
+    let mut i = vals.len();
+    let mut next = None;
+    while i > 0 {
+      i -= 1;
+      if vals[i] + 1 < ars[i] {
+        let mut p = vals[..i].to_vec();
+        p.push(vals[i] + 1);
+        next = Some(p);
+        break;
+      }
+    }
+    match next {
+      Some(p) => prefix = p,
+      None => {
+        complete = true;
+        break;
+      }
+    }
+  }
+  out.count("enumerated_schedules", leaves);
+  out.count(
+    if complete {
+      "worlds_with_all_schedules_enumerated"
+    } else {
+      "worlds_enumeration_cut_by_budget"
+    },
+    1,
+  );
+  out.count("builds", leaves);
+  if leaves > 1 {
+    out.nontrivial_key = Some(wh);
+  }
+  out.sample = Some(json!({
+    "mode": "all schedules of a tiny world",
+    "roots": world.roots, "entries": world.remote.len(),
+    "schedules": leaves, "complete": complete,
+  }));
+  out
+}
+
+pub fn run_case(tape: &mut Tape, tier: Tier, p: &CaseParams) -> CaseOutcome {
+  if p.systematic_index.is_some() {
+    return enumerate_case(tape, tier);
+  }
   let mut out = CaseOutcome::default();
   let cfg = GenCfg::basic();
   let world = crate::checks::worlds::gen_any_world(tape, &cfg);
